@@ -1,6 +1,6 @@
 #!/bin/bash
 # re-validates every filed seed against the current /repo HEAD and the current checks (2 at a time)
 cd "$(dirname "$0")/.."
-one(){ d=$1; n=$(basename $d); pid=${n%%-*}; out=$(python3 tools/validate_seed.py $d $pid $n --no-baseline 2>&1); echo "$n $(echo "$out" | grep -E '^ "confirmed"|^ "detected"' | tr -d '\n') $(echo "$out" | grep -o 'PATCH DOES NOT APPLY' | head -1)"; }
+one(){ d=$1; n=$(basename $d); pid=${n%%-*}; base=HEAD; [ -f $d/PINNED_BASE ] && base=$(cat $d/PINNED_BASE); out=$(python3 tools/validate_seed.py $d $pid $n --no-baseline --base $base 2>&1); echo "$n $(echo "$out" | grep -E '^ "confirmed"|^ "detected"' | tr -d '\n') $(echo "$out" | grep -o 'PATCH DOES NOT APPLY' | head -1)"; }
 export -f one
 ls -d seeded/*/ | xargs -P ${PAR:-2} -I{} bash -c 'one {}'
